@@ -51,6 +51,9 @@ Recorded(c) ==
 FullAssets(c)  == Held(c) \cup c.uni \cup DOMAIN Optimised(c)
 FullWeights(c) == [a \in FullAssets(c) |-> IF a \in DOMAIN Optimised(c) THEN Optimised(c)[a] ELSE 0]
 FullRecorded(c) == [a \in FullAssets(c) |-> IF a \in DOMAIN Recorded(c) THEN Recorded(c)[a] ELSE << 0, 1 >>]
+\* holdings may be fractions of a unit (the broker books whatever quantity it is handed): `held` then carries NUMERATORS
+\* over the common denominator `hden` (absent = 1, whole units).  Targets are whole units; orders are stated in 1/hden units.
+HDen(c)        == IF "hden" \in DOMAIN c THEN c.hden ELSE 1
 HeldQty(c, a)  == IF a \in DOMAIN c.held THEN c.held[a] ELSE 0
 
 \* the sizer is called with the full weight vector; it iterates the assets in ascending order
@@ -73,8 +76,8 @@ Call(c) ==
 
 \* the orders for one concrete choice of target quantities tq : [asset -> Int]
 Orders(c, tq) ==
-  LET as == Ascending({ a \in FullAssets(c) : tq[a] - HeldQty(c, a) # 0 })
-  IN  [i \in 1..Len(as) |-> << as[i], tq[as[i]] - HeldQty(c, as[i]) >>]
+  LET as == Ascending({ a \in FullAssets(c) : tq[a] * HDen(c) - HeldQty(c, a) # 0 })
+  IN  [i \in 1..Len(as) |-> << as[i], tq[as[i]] * HDen(c) - HeldQty(c, as[i]) >>]
 
 (* C09 on a case and a list of orders os (pairs <<asset, qty>>), given the target tq *)
 C09_Post(c, tq, os) ==
@@ -83,7 +86,7 @@ C09_Post(c, tq, os) ==
   /\ \A a \in FullAssets(c) :                                                     \* exactly target - held
        LET q == IF \E i \in 1..Len(os) : os[i][1] = a
                 THEN os[CHOOSE i \in 1..Len(os) : os[i][1] = a][2] ELSE 0
-       IN  q = tq[a] - HeldQty(c, a)
+       IN  q = tq[a] * HDen(c) - HeldQty(c, a)
   /\ \A i \in 1..Len(os) : os[i][1] \in FullAssets(c)
   /\ \A a \in Held(c) : (a \notin DOMAIN Optimised(c) \/ Optimised(c)[a] = 0) => tq[a] = 0   \* weightless holdings are liquidated
   /\ DOMAIN FullWeights(c) = Held(c) \cup c.uni \cup DOMAIN Optimised(c)            \* allocation covers exactly that set
